@@ -58,17 +58,36 @@ theorem ovLookup_ovRemove_ne (ov : List (Nat × V)) (h h' : Nat) (hne : h' ≠ h
         simp [ovRemove, ovLookup, hne]
       · simp [ovRemove, ovLookup, hk, hk', ih]
 
+/-- `insert` case by case.  This is where the fast-path condition regenerated from the source
+(`MJ.Gen.registryInsertFastPath`) is used: the inline slot is taken only when it is free *and* nothing
+has spilled yet. -/
+theorem Registry.insert_cases (r : Registry) (h : Nat) (v : V) :
+    r.insert h v =
+      match r.single, r.overflow with
+      | none, [] => { single := some (h, v), overflow := [] }
+      | none, ov => { single := none, overflow := ovInsert ov h v }
+      | some (h0, v0), ov => { single := none, overflow := ovInsert (ovInsert ov h0 v0) h v } := by
+  obtain ⟨single, ov⟩ := r
+  cases single with
+  | none =>
+    cases ov with
+    | nil => simp [Registry.insert, MJ.Gen.registryInsertFastPath]
+    | cons p ps => simp [Registry.insert, MJ.Gen.registryInsertFastPath]
+  | some hv =>
+    obtain ⟨h0, v0⟩ := hv
+    cases ov <;> simp [Registry.insert, MJ.Gen.registryInsertFastPath]
+
 /-- `remove` right after `insert` returns the inserted value, whatever the registry held -/
 theorem remove_insert (r : Registry) (h : Nat) (v : V) : ((r.insert h v).remove h).1 = some v := by
   obtain ⟨single, ov⟩ := r
   cases single with
   | none =>
     cases ov with
-    | nil => simp [Registry.insert, Registry.remove]
-    | cons p ps => simp [Registry.insert, Registry.remove, ovRemove_ovInsert]
+    | nil => simp [Registry.insert_cases, Registry.remove]
+    | cons p ps => simp [Registry.insert_cases, Registry.remove, ovRemove_ovInsert]
   | some hv =>
     obtain ⟨h0, v0⟩ := hv
-    simp [Registry.insert, Registry.remove, ovRemove_ovInsert]
+    simp [Registry.insert_cases, Registry.remove, ovRemove_ovInsert]
 
 /-- … and every other handle still resolves to what it resolved to before -/
 theorem remove_insert_frame (r : Registry) (h h' : Nat) (v : V) (hne : h' ≠ h) :
@@ -77,13 +96,13 @@ theorem remove_insert_frame (r : Registry) (h h' : Nat) (v : V) (hne : h' ≠ h)
   cases single with
   | none =>
     cases ov with
-    | nil => simp [Registry.insert, Registry.remove, Registry.lookup, ovLookup]
+    | nil => simp [Registry.insert_cases, Registry.remove, Registry.lookup, ovLookup]
     | cons p ps =>
-      simp [Registry.insert, Registry.remove, Registry.lookup, ovLookup_ovRemove_ne _ _ _ hne,
+      simp [Registry.insert_cases, Registry.remove, Registry.lookup, ovLookup_ovRemove_ne _ _ _ hne,
         ovLookup_ovInsert_ne _ _ _ _ hne]
   | some hv =>
     obtain ⟨h0, v0⟩ := hv
-    simp only [Registry.insert, Registry.remove, Registry.lookup]
+    simp only [Registry.insert_cases, Registry.remove, Registry.lookup]
     rw [ovLookup_ovRemove_ne _ _ _ hne, ovLookup_ovInsert_ne _ _ _ _ hne]
     by_cases h0h' : h0 = h'
     · subst h0h'
@@ -108,10 +127,10 @@ theorem remove_insert_gone (r : Registry) (h : Nat) (v : V) (hfresh : r.lookup h
   cases single with
   | none =>
     cases ov with
-    | nil => simp [Registry.insert, Registry.remove, Registry.lookup, ovLookup]
+    | nil => simp [Registry.insert_cases, Registry.remove, Registry.lookup, ovLookup]
     | cons p ps =>
       simp only [Registry.lookup] at hfresh
-      simp only [Registry.insert, Registry.remove, Registry.lookup]
+      simp only [Registry.insert_cases, Registry.remove, Registry.lookup]
       exact key _ hfresh
   | some hv =>
     obtain ⟨h0, v0⟩ := hv
@@ -119,10 +138,193 @@ theorem remove_insert_gone (r : Registry) (h : Nat) (v : V) (hfresh : r.lookup h
     by_cases h0h : h0 = h
     · simp [h0h] at hfresh
     · simp only [h0h, if_false] at hfresh
-      simp only [Registry.insert, Registry.remove, Registry.lookup]
+      simp only [Registry.insert_cases, Registry.remove, Registry.lookup]
       apply key
       rw [ovLookup_ovInsert_ne _ _ _ _ (Ne.symm h0h)]
       exact hfresh
+
+/-! ### the two-tier store refines a finite map -/
+
+/-- no handle twice in the overflow map (a `BTreeMap`) -/
+def ovNodup : List (Nat × V) → Prop
+  | [] => True
+  | (h, _) :: rest => ovLookup rest h = none ∧ ovNodup rest
+
+/-- registries reachable through `insert` / `remove`: the inline slot is only used while nothing has
+spilled, and the map has no duplicate keys -/
+def Registry.Inv (r : Registry) : Prop :=
+  (∀ p, r.single = some p → r.overflow = []) ∧ ovNodup r.overflow
+
+theorem ovNodup_ovInsert (l : List (Nat × V)) (h : Nat) (v : V) (hl : ovNodup l) : ovNodup (ovInsert l h v) := by
+  induction l with
+  | nil => simp [ovInsert, ovNodup, ovLookup]
+  | cons p ps ih =>
+    obtain ⟨k, w⟩ := p
+    simp only [ovNodup] at hl
+    by_cases hk : k = h
+    · subst hk
+      simp only [ovInsert, if_true, ovNodup]
+      exact hl
+    · simp only [ovInsert, hk, if_false, ovNodup]
+      exact ⟨by rw [ovLookup_ovInsert_ne _ _ _ _ hk]; exact hl.1, ih hl.2⟩
+
+theorem ovNodup_ovRemove (l : List (Nat × V)) (h : Nat) (hl : ovNodup l) : ovNodup (ovRemove l h).2 := by
+  induction l with
+  | nil => simp [ovRemove, ovNodup]
+  | cons p ps ih =>
+    obtain ⟨k, w⟩ := p
+    simp only [ovNodup] at hl
+    by_cases hk : k = h
+    · simp only [ovRemove, hk, if_true]
+      exact hl.2
+    · simp only [ovRemove, hk, if_false, ovNodup]
+      exact ⟨by rw [ovLookup_ovRemove_ne _ _ _ hk]; exact hl.1, ih hl.2⟩
+
+theorem ovLookup_ovRemove_self (l : List (Nat × V)) (h : Nat) (hl : ovNodup l) : ovLookup (ovRemove l h).2 h = none := by
+  induction l with
+  | nil => simp [ovRemove, ovLookup]
+  | cons p ps ih =>
+    obtain ⟨k, w⟩ := p
+    simp only [ovNodup] at hl
+    by_cases hk : k = h
+    · subst hk
+      simp only [ovRemove, if_true]
+      exact hl.1
+    · simp only [ovRemove, hk, if_false, ovLookup]
+      exact ih hl.2
+
+theorem ovRemove_fst (l : List (Nat × V)) (h : Nat) : (ovRemove l h).1 = ovLookup l h := by
+  induction l with
+  | nil => simp [ovRemove, ovLookup]
+  | cons p ps ih =>
+    obtain ⟨k, w⟩ := p
+    by_cases hk : k = h
+    · simp [ovRemove, ovLookup, hk]
+    · simp [ovRemove, ovLookup, hk, ih]
+
+/-- `insert` is the map update -/
+theorem lookup_insert (r : Registry) (h h' : Nat) (v : V) :
+    (r.insert h v).lookup h' = if h' = h then some v else r.lookup h' := by
+  obtain ⟨single, ov⟩ := r
+  rw [Registry.insert_cases]
+  by_cases hh : h' = h
+  · subst hh
+    cases single with
+    | none =>
+      cases ov with
+      | nil => simp [Registry.lookup]
+      | cons p ps => simp [Registry.lookup, ovLookup_ovInsert_eq]
+    | some hv => obtain ⟨h0, v0⟩ := hv; simp [Registry.lookup, ovLookup_ovInsert_eq]
+  · simp only [hh, if_false]
+    cases single with
+    | none =>
+      cases ov with
+      | nil => simp [Registry.lookup, ovLookup, Ne.symm hh]
+      | cons p ps => simp [Registry.lookup, ovLookup_ovInsert_ne _ _ _ _ hh]
+    | some hv =>
+      obtain ⟨h0, v0⟩ := hv
+      simp only [Registry.lookup]
+      rw [ovLookup_ovInsert_ne _ _ _ _ hh]
+      by_cases h0h' : h0 = h'
+      · subst h0h'; simp [ovLookup_ovInsert_eq]
+      · simp [h0h', ovLookup_ovInsert_ne _ _ _ _ (Ne.symm h0h')]
+
+/-- `remove` returns what the map holds … -/
+theorem remove_fst (r : Registry) (h : Nat) : (r.remove h).1 = r.lookup h := by
+  obtain ⟨single, ov⟩ := r
+  cases single with
+  | none => simp [Registry.remove, Registry.lookup, ovRemove_fst]
+  | some hv =>
+    obtain ⟨h0, v0⟩ := hv
+    by_cases hh : h0 = h
+    · simp [Registry.remove, Registry.lookup, hh]
+    · simp [Registry.remove, Registry.lookup, hh, ovRemove_fst]
+
+/-- … and is the map deletion -/
+theorem lookup_remove (r : Registry) (h h' : Nat) (hinv : r.Inv) :
+    (r.remove h).2.lookup h' = if h' = h then none else r.lookup h' := by
+  obtain ⟨single, ov⟩ := r
+  obtain ⟨hs, hn⟩ := hinv
+  by_cases hh : h' = h
+  · subst hh
+    simp only [if_true]
+    cases single with
+    | none => simp [Registry.remove, Registry.lookup, ovLookup_ovRemove_self _ _ hn]
+    | some hv =>
+      obtain ⟨h0, v0⟩ := hv
+      have hov : ov = [] := hs (h0, v0) rfl
+      subst hov
+      by_cases h0h : h0 = h'
+      · simp [Registry.remove, Registry.lookup, h0h, ovLookup]
+      · simp [Registry.remove, Registry.lookup, h0h, ovLookup, ovRemove]
+  · simp only [hh, if_false]
+    cases single with
+    | none => simp [Registry.remove, Registry.lookup, ovLookup_ovRemove_ne _ _ _ hh]
+    | some hv =>
+      obtain ⟨h0, v0⟩ := hv
+      by_cases h0h : h0 = h
+      · subst h0h
+        have hov : ov = [] := hs (h0, v0) rfl
+        subst hov
+        simp [Registry.remove, Registry.lookup, ovLookup, Ne.symm hh]
+      · simp [Registry.remove, Registry.lookup, h0h, ovLookup_ovRemove_ne _ _ _ hh]
+
+theorem inv_insert (r : Registry) (h : Nat) (v : V) (hinv : r.Inv) : (r.insert h v).Inv := by
+  obtain ⟨single, ov⟩ := r
+  obtain ⟨hs, hn⟩ := hinv
+  rw [Registry.insert_cases]
+  cases single with
+  | none =>
+    cases ov with
+    | nil => exact ⟨fun _ _ => rfl, by simp [ovNodup]⟩
+    | cons p ps => exact ⟨by intro p hp; simp at hp, ovNodup_ovInsert _ _ _ hn⟩
+  | some hv =>
+    obtain ⟨h0, v0⟩ := hv
+    exact ⟨by intro p hp; simp at hp, ovNodup_ovInsert _ _ _ (ovNodup_ovInsert _ _ _ hn)⟩
+
+theorem inv_remove (r : Registry) (h : Nat) (hinv : r.Inv) : (r.remove h).2.Inv := by
+  obtain ⟨single, ov⟩ := r
+  obtain ⟨hs, hn⟩ := hinv
+  cases single with
+  | none => exact ⟨by intro p hp; simp [Registry.remove] at hp, by simpa [Registry.remove] using ovNodup_ovRemove _ _ hn⟩
+  | some hv =>
+    obtain ⟨h0, v0⟩ := hv
+    have hov : ov = [] := hs (h0, v0) rfl
+    subst hov
+    by_cases hh : h0 = h
+    · simp [Registry.remove, hh, Registry.Inv, ovNodup]
+    · simp [Registry.remove, hh, Registry.Inv, ovNodup, ovRemove]
+
+/-- the specification: a finite map from handles to values -/
+def runMap : List RegOp → (Nat → Option V) → (Nat → Option V) × List (Option V)
+  | [], m => (m, [])
+  | .ins h v :: ops, m => runMap ops (fun k => if k = h then some v else m k)
+  | .rem h :: ops, m =>
+    let rest := runMap ops (fun k => if k = h then none else m k)
+    (rest.1, m h :: rest.2)
+
+/-- for every sequence of inserts and removes the two-tier store answers like the finite map -/
+theorem registry_refines_map (ops : List RegOp) (r : Registry) (m : Nat → Option V) (hinv : r.Inv)
+    (hm : ∀ k, r.lookup k = m k) :
+    (runReg ops r).2 = (runMap ops m).2 ∧ (∀ k, (runReg ops r).1.lookup k = (runMap ops m).1 k) ∧ (runReg ops r).1.Inv := by
+  induction ops generalizing r m with
+  | nil => exact ⟨rfl, hm, hinv⟩
+  | cons op ops ih =>
+    cases op with
+    | ins h v =>
+      simp only [runReg, runMap]
+      exact ih (r.insert h v) _ (inv_insert r h v hinv) (fun k => by rw [lookup_insert, hm])
+    | rem h =>
+      simp only [runReg, runMap]
+      obtain ⟨h1, h2, h3⟩ := ih (r.remove h).2 (fun k => if k = h then none else m k) (inv_remove r h hinv)
+        (fun k => by rw [lookup_remove r h k hinv, hm])
+      exact ⟨by rw [remove_fst, hm, h1], h2, h3⟩
+
+theorem registry_refines_map_from_empty (ops : List RegOp) :
+    (runReg ops Registry.empty).2 = (runMap ops (fun _ => none)).2 :=
+  (registry_refines_map ops Registry.empty (fun _ => none)
+    ⟨by intro p hp; simp [Registry.empty] at hp, by simp [Registry.empty, ovNodup]⟩
+    (fun k => by simp [Registry.empty, Registry.lookup, ovLookup])).1
 
 theorem serValueM_fst (v : V) (st : HState) : (serValueM v st).1 = v := by
   unfold serValueM
